@@ -67,20 +67,25 @@ def subpixel_pcc(
             )
         )
 
-        _lshift = (shifts + _max_shifts) * upsample_factor
-        _rshift = (_max_shifts - shifts) * upsample_factor
-        power = crop_by_max_shifts(
-            power, _lshift.astype(np.int32), _rshift.astype(np.int32), backend
-        )
+        # The upsampled window is centered at ``dftshift`` (not in the FFT order), so
+        # it must be cropped directly around the center.
+        _lshift = ((shifts + _max_shifts) * upsample_factor).astype(np.int32)
+        _rshift = ((_max_shifts - shifts) * upsample_factor).astype(np.int32)
+        _center = int(dftshift)
+        _starts = [max(_center - int(l), 0) for l in _lshift]
+        _stops = [
+            min(_center + int(r) + 1, s) for r, s in zip(_rshift, power.shape)
+        ]
+        power = power[tuple(slice(s0, s1) for s0, s1 in zip(_starts, _stops))]
 
+        imax = backend.asnumpy(
+            backend.unravel_index(backend.argmax(power), power.shape)
+        )
         maxima = (
-            backend.asnumpy(
-                backend.unravel_index(backend.argmax(power), power.shape)
-            ).astype(np.float32)
-            - dftshift
+            imax.astype(np.float32) + np.array(_starts, dtype=np.float32) - dftshift
         )
         shifts = shifts + maxima / upsample_factor
-        pcc = math.sqrt(backend.asnumpy(power[tuple(int(round(m)) for m in maxima)]))
+        pcc = math.sqrt(backend.asnumpy(power[tuple(int(i) for i in imax)]))
     else:
         pcc = math.sqrt(backend.asnumpy(power[tuple(maxima)]))
     return shifts, pcc
